@@ -9,6 +9,7 @@ the real sst::Setsum, ManifestVerifier::verify per fragment) and compared with
     I = O + D, D = sum(removed) - sum(added), I_n = O_{n-1}, roll-ups equal the state they summarise.
 `verify` runs the real LsmVerifier on the live directory and compares verdict and accumulated
 setsum with the model's verify_frags."""
+import os
 import shutil
 
 import c04_lib as L
@@ -81,12 +82,15 @@ class Run:
         self.tool = L.Tool(c04_exe)
         self.model = L.Model(mx_exe)
         self.model.cmd("new")
+        self.model.cmd("policy %d" % versions)
         self.sent = set()
         self.problems = []          # dicts: kind in {property, corr, error, outside}
         self.events = []
         self.stats = {"flush": 0, "compact": 0, "gc": 0, "move": 0, "reopen": 0, "verify": 0, "rollover": 0, "self_replacing": 0,
                       "txns_checked": 0, "files_recomputed": 0, "gc_dropped": 0, "verify_frags": 0, "none": 0}
         self.frags = {}             # id -> list of Edit (every fragment ever seen)
+        self.checked = {}           # id -> (number of edits the oracle has checked, accumulated O)
+        self.verified_files = set() # names whose contents were read back and recomputed
         self.cur_id = 1
         self.files = {}             # name -> entries (every file ever seen)
         self.tree = []              # names
@@ -112,8 +116,8 @@ class Run:
     def ents_str(self, ents):
         return ",".join(L.ent_tok(e) for e in ents) if ents else "-"
 
-    def inspect(self):
-        return L.Inspection(self.tool.cmd("inspect " + self.root, multi=True))
+    def inspect(self, brief=False):
+        return L.Inspection(self.tool.cmd("inspect " + self.root + (" brief" if brief else ""), multi=True))
 
     def dump_tree(self):
         out = self.sess.cmd("dump")
@@ -135,10 +139,13 @@ class Run:
         return names
 
     # ------------------------------------------------------------ the comparison after every transaction
-    def sync(self, where, expect_model="ok"):
-        ins = self.inspect()
+    def sync(self, where, full=False):
+        """inspect the real directory.  Incremental: manifest fragments are append-only and an sst is
+        immutable, so only the newest three fragments are re-read and only ssts not seen before
+        are read back (full=True re-reads everything: done at the end of a history)."""
+        ins = self.inspect(brief=not full)
         self.last_ins = ins
-        numbered = [int(f[0]) for f in ins.frags["mani"] if f[0] != "cur"]
+        numbered = [int(f[0]) for f in ins.frags["mani"] if f[0] != "cur"] + [int(x) for x in ins.older["mani"]]
         # the verifier never removes the newest numbered fragment, so this is the live one's number
         cur_id = (max(numbered) + 1) if numbered else 1
         rolled = cur_id - self.cur_id
@@ -146,11 +153,24 @@ class Run:
         for fid, edits, err in ins.frags["mani"]:
             if err:
                 self.problem("property", what="a manifest fragment the store wrote does not parse", fragment=fid, err=err, where=where)
-            self.frags[cur_id if fid == "cur" else int(fid)] = edits
+            i = cur_id if fid == "cur" else int(fid)
+            old = self.frags.get(i)
+            if old is not None and [e.key() for e in old] != [e.key() for e in edits[:len(old)]]:
+                self.problem("property", what="edits already written to a manifest fragment changed", fragment=i, where=where)
+            self.frags[i] = edits
         for d in ("sst", "trash"):
-            for name, (meta, recomputed, ents) in ins.files[d].items():
+            for name in ins.names[d]:
+                if name in ins.files[d]:
+                    rec = ins.files[d][name]
+                elif name in self.verified_files:
+                    continue
+                else:
+                    rec = L.parse_sst1(self.tool.cmd("sst %s" % os.path.join(self.root, d, name + ".sst"))[0])
+                    ins.files[d][name] = rec
+                meta, recomputed, ents = rec
                 if meta == "ERR":
-                    self.problem("property", what="an sst in %s/ cannot be read back" % d, file=name, where=where)
+                    if full or d == "sst":
+                        self.problem("property", what="an sst in %s/ cannot be read back" % d, file=name, where=where)
                     continue
                 self.files.setdefault(name, ents)
                 self.stats["files_recomputed"] += 1
@@ -158,6 +178,7 @@ class Run:
                 if not (name == meta == recomputed == mine):
                     self.problem("property", what="file name / final-block setsum / setsum recomputed from the stored entries differ",
                                  dir=d, file=name, final_block=meta, recomputed_by_sst_crate=recomputed, recomputed_by_python=mine, where=where)
+                self.verified_files.add(name)
         self.oracle(ins, where)
         return ins, rolled
 
@@ -166,33 +187,37 @@ class Run:
         st = ins.state["mani"]
         strs = st["strs"]
         total = L.ss_zero()
+        on_disk = set(ins.names["sst"])
         for n in strs:
             total = L.ss_add(total, L.ss_from_hex(n))
-            if n not in ins.files["sst"]:
+            if n not in on_disk:
                 self.problem("property", what="the manifest lists an sst that is not in sst/", file=n, where=where)
         if st.get("O", "-") != L.ss_hex(total):
             self.problem("property", what="recorded O differs from the sum of the listed ssts", O=st.get("O"), sum=L.ss_hex(total), where=where)
-        # every fragment still on disk: chain and balance
-        ids = sorted(self.frags)
-        for fid in ids:
+        # fragments: chain and balance of the edits not checked before
+        for fid in sorted(self.frags):
             edits = self.frags[fid]
             if not edits:
                 continue
-            prev = self.frags.get(fid - 1)
-            if prev:
-                # the roll-up equals the state its predecessor ends in
-                s, info = set(), {}
-                for e in prev:
-                    for x in e.rms:
-                        s.discard(x)
-                    for x in e.adds:
-                        s.add(x)
-                    info.update(e.info)
-                first = edits[0]
-                if set(first.adds) != s or first.rms or any(first.info.get(k) != info.get(k) for k in "IOD"):
-                    self.problem("property", what="a fragment does not start with the roll-up of its predecessor", fragment=fid, where=where)
-            acc = edits[0].info.get("O")
-            for i, e in enumerate(edits[1:], 1):
+            done, acc = self.checked.get(fid, (0, None))
+            if done == 0:
+                prev = self.frags.get(fid - 1)
+                if prev:
+                    # the roll-up equals the state its predecessor ends in
+                    s, info = set(), {}
+                    for e in prev:
+                        for x in e.rms:
+                            s.discard(x)
+                        for x in e.adds:
+                            s.add(x)
+                        info.update(e.info)
+                    first = edits[0]
+                    if set(first.adds) != s or first.rms or any(first.info.get(k) != info.get(k) for k in "IOD"):
+                        self.problem("property", what="a fragment does not start with the roll-up of its predecessor", fragment=fid, where=where)
+                acc = edits[0].info.get("O")
+                done = 1
+            for i in range(done, len(edits)):
+                e = edits[i]
                 self.stats["txns_checked"] += 1
                 I, O, D = (e.info.get(k) for k in "IOD")
                 if None in (I, O, D):
@@ -210,6 +235,7 @@ class Run:
                     self.problem("property", what="a manifest transaction does not balance / chain",
                                  fragment=fid, edit=i, chain=ok_chain, balance=ok_bal, discard=ok_disc, where=where)
                 acc = O
+            self.checked[fid] = (len(edits), acc)
         for fid, verdict in ins.mv.items():
             if not verdict.startswith("ok"):
                 self.problem("property", what="ManifestVerifier::verify rejects a fragment the store wrote", fragment=fid, verdict=verdict, where=where)
@@ -225,21 +251,26 @@ class Run:
                 return
         if m["sum"] != st.get("O"):
             self.problem("corr", what="model tree setsum differs from recorded O after " + where)
-        mf = self.model.cmd("frags")[2:].split(";")
+        k0 = max(0, self.cur_id - 3)
+        t = self.model.cmd("frags %d" % k0).split(" ", 2)
+        total = int(t[1])
+        mf = t[2].split(";") if len(t) > 2 else []
         for fid in sorted(self.frags):
-            if fid - 1 >= len(mf):
+            if fid - 1 < k0:
+                continue
+            if fid - 1 - k0 >= len(mf):
                 self.problem("corr", what="implementation has more fragments than the model after " + where, fragment=fid)
                 return
             want = []
             for e in self.frags[fid]:
                 want.append("%s %s %s %s +%s -%s" % (e.info.get("I"), e.info.get("O"), e.info.get("D"), e.info.get("L", "-"),
                                                      ",".join(sorted(e.adds)), ",".join(sorted(e.rms))))
-            if "|".join(want) != mf[fid - 1]:
+            if "|".join(want) != mf[fid - 1 - k0]:
                 self.problem("corr", what="fragment %d differs between model and implementation after %s" % (fid, where),
-                             impl="|".join(want)[-400:], model=mf[fid - 1][-400:])
+                             impl="|".join(want)[-400:], model=mf[fid - 1 - k0][-400:])
                 return
-        if len(mf) != self.cur_id:
-            self.problem("corr", what="model has %d fragments, implementation %d after %s" % (len(mf), self.cur_id, where))
+        if total != self.cur_id:
+            self.problem("corr", what="model has %d fragments, implementation %d after %s" % (total, self.cur_id, where))
 
     def model_step(self, line, where, expect="ok"):
         r = self.model.cmd(line)
@@ -368,11 +399,8 @@ class Run:
         if len(inputs) == 1:
             if sorted(tree) != sorted(before):
                 self.problem("corr", what="a trivial move changed the set of files")
-            ins, rolled = self.sync("move")
-            if rolled:
-                self.problem("corr", what="a trivial move wrote to the manifest")
-            if self.model_step("move " + inputs[0], "move"):
-                self.compare_model(ins, "move")
+            # a move writes nothing: the next transaction's inspection would show an edit too many
+            self.model_step("move " + inputs[0], "move")
             self.stats["move"] += 1
             return True
         is_gc = up == self.num_levels - 1
@@ -408,7 +436,7 @@ class Run:
         out = self.tool.cmd("verify %s %d %s" % (self.root, passes, " ".join(self.opts)), multi=True)
         self.events.append(("verify", " ".join(out)))
         self.stats["verify"] += 1
-        ins = self.inspect()
+        ins = self.inspect(brief=True)
         vs = ins.state["verify"]
         m = vs.get("M", "-")
         k = int(m.split(".")[1]) if m.startswith("MANIFEST.") else 0
